@@ -21,6 +21,8 @@ type CRLRevocationChecker struct {
 	logger          *zap.Logger
 	crlUpdateTicker *time.Ticker
 	crlUpdateStop   chan struct{}
+	//time the last update of the crls of this checker was finished (guarded by crlUpdateMutex)
+	lastCrlUpdateFinishTime time.Time
 }
 
 func (c *CRLRevocationChecker) IsRevoked(clientCertificate *x509.Certificate, verifiedChains [][]*x509.Certificate) (*core.RevocationStatus, error) {
@@ -177,7 +179,7 @@ func (c *CRLRevocationChecker) updateCRLs(forceUpdate bool) {
 	}
 	defer func() {
 		// mark when crl update was last finished
-		lastCrlUpdateFinishTime = time.Now()
+		c.lastCrlUpdateFinishTime = time.Now()
 	}()
 
 	verifhook.Hit("crl.update.run", c, forceUpdate)
@@ -185,7 +187,9 @@ func (c *CRLRevocationChecker) updateCRLs(forceUpdate bool) {
 }
 
 func (c *CRLRevocationChecker) updateWasRecentlyFinished() bool {
-	return !lastCrlUpdateFinishTime.IsZero() && (time.Since(lastCrlUpdateFinishTime) < c.crlConfig.UpdateIntervalParsed/2)
+	//every checker has its own crls and its own interval, an update of another checker in the same process
+	//must not make this checker skip its update
+	return !c.lastCrlUpdateFinishTime.IsZero() && (time.Since(c.lastCrlUpdateFinishTime) < c.crlConfig.UpdateIntervalParsed/2)
 }
 
 func RegisterCRLWorkDirUsage(crlConfig *config.CRLConfig) error {
@@ -205,8 +209,7 @@ func DeregisterCRLWorkDirUsage(crlConfig *config.CRLConfig) {
 }
 
 var (
-	workDirsInUse           = make(map[string]int)
-	workDirInUseMutex       sync.Mutex
-	crlUpdateMutex          sync.Mutex
-	lastCrlUpdateFinishTime time.Time
+	workDirsInUse     = make(map[string]int)
+	workDirInUseMutex sync.Mutex
+	crlUpdateMutex    sync.Mutex
 )
